@@ -143,6 +143,53 @@ def _shape_worker(d, chunk, extra):
     return out
 
 
+def comment_cases(maxlen, pairlen):
+    """(text, text without the comments): every comment body up to maxlen characters in each of the three styles between
+    two tokens, and every pair of block comments with bodies up to pairlen in one program (also before a string that
+    contains a comment terminator)."""
+    blk = ["*", "/", "x", " ", '"', "\n"]
+    lin = ["*", "/", "#", "x", '"', " "]
+
+    def bodies(al, n, bad=()):
+        for k in range(n + 1):
+            for t in itertools.product(al, repeat=k):
+                b = "".join(t)
+                if not any(x in b for x in bad):
+                    yield b
+
+    for b in bodies(blk, maxlen, ("*/",)):
+        if b.endswith("*") and False:
+            continue
+        c = "/*" + b + "*/"
+        if "*/" in ("/*" + b)[2:] or ("/*" + b).endswith("*") and False:
+            pass
+        yield "1 %s 2" % c, "1 2"
+        yield "1%s2" % c, "1 2"
+    for b in bodies(lin, maxlen):
+        yield "1 //%s\n 2" % b, "1 2"
+        yield "1 #%s\n 2" % b, "1 2"
+    for b1 in bodies(blk, pairlen, ("*/",)):
+        for b2 in bodies(blk, pairlen, ("*/",)):
+            yield "[1, /*%s*/ 2, /*%s*/ 3]" % (b1, b2), "[1, 2, 3]"
+        yield '1 /*%s*/ "b*/c" 2' % b1, '1 "b*/c" 2'
+        yield '1 /*%s*/ 2 //*/\n 3' % b1, "1 2 3"
+
+
+def _comment_worker(d, chunk, extra):
+    out = {"n": 0, "bad": []}
+    bases = sorted({b for _, b in chunk})
+    rb = dict(zip(bases, d.batch([drv.run_cmd(b, lim=20) for b in bases])))
+    rs = d.batch([drv.run_cmd(t, lim=20) for t, _ in chunk])
+    for (t, b), r in zip(chunk, rs):
+        out["n"] += 1
+        if r.crash or r.lines != rb[b].lines:
+            out["bad"].append(("comment:%s" % t.encode().hex(), "%r yields %r, but %r (the same program without the comments) yields %r%s" % (
+                t, r.lines[:4] if not r.first("qerr") else drv.unhx(r.first("qerr")), b, rb[b].lines[:4], " (%s)" % (r.crash,) if r.crash else ""),
+                {"comment": t, "base": b}))
+    out["bad"] = out["bad"][:12]
+    return out
+
+
 def extra_corpus():
     """Programs that exercise strings, escapes and directives (the Z_3 corpus has few literals)."""
     vals = [I(0), I(255, "hex"), I(-8, "oct"), I(5, "bin"), ("w", "true"), ("str", b"a\"b"), ("str", b"x\\y%z"), ("str", b"\x00\x01\xff"),
@@ -307,6 +354,12 @@ def _worker(d, task, extra):
 def replay(case):
     ctx = common.Ctx("C15", "quick")
     b = ctx.bin("zwdrv")
+    if "comment" in case:
+        d = drv.Drv(b, "core")
+        try:
+            return bool(_comment_worker(d, [(case["comment"], case["base"])], None)["bad"])
+        finally:
+            d.close()
     if "shape" in case:
         d = drv.Drv(b, "core")
         try:
@@ -359,6 +412,12 @@ def main(ctx):
         kinds["escape-spelling"] = kinds.get("escape-spelling", 0) + r["n"]
         for key, what, case in r["bad"]:
             ctx.violation(key, what, case)
+    cbounds = (4, 2) if thorough else (3, 2)
+    for r in common.pmap(ctx, _comment_worker, common.chunks(comment_cases(*cbounds), 300), bins["zwdrv"], "core", timeout=60):
+        ctx.count("comment_programs", r["n"])
+        kinds["comment-body"] = kinds.get("comment-body", 0) + r["n"]
+        for key, what, case in r["bad"]:
+            ctx.violation(key, what, case)
     shape_bounds = (4, 2) if thorough else (3, 2)
     for r in common.pmap(ctx, _shape_worker, common.chunks(shape_cases(*shape_bounds), 400), fast if thorough else bins["zwdrv"], "core", timeout=90):
         ctx.count("simplifier_shapes", r["n"])
@@ -369,7 +428,7 @@ def main(ctx):
             ctx.violation(key, what, case)
     t = zwgen.by_size(2)[2][20][1]
     ctx.sample({"program": zwmodel.render(t), "rewrites": [v[2] for v in list(variants(t))[:6]]})
-    n = ctx.counts.get("rewrites_executed", 0) + ctx.counts.get("escape_spellings", 0) + ctx.counts.get("simplifier_shapes", 0)
+    n = ctx.counts.get("rewrites_executed", 0) + ctx.counts.get("escape_spellings", 0) + ctx.counts.get("simplifier_shapes", 0) + ctx.counts.get("comment_programs", 0)
     cov = {
         "states": n + ctx.counts.get("programs", 0),
         "transitions": n + ctx.counts.get("programs", 0),
@@ -381,6 +440,8 @@ def main(ctx):
                 "distinct = distinct (program, rewrite, position); distinct_outcomes = rewrites applied per kind",
         "bounds": {"corpora": "Z_3 transformers up to 3 nodes (4 thorough) on inputs 0,1,2; binder programs of depth 1 (every 4th of depth 2 thorough); literal/format/infix corpus",
                    "layouts": LAYOUTS,
+                   "comment_bodies": {"block_alphabet": ["*", "/", "x", " ", "\"", "\\n"], "line_alphabet": ["*", "/", "#", "x", "\"", " "], "max_length": cbounds[0],
+                                      "pairs_of_block_comments_with_bodies_up_to": cbounds[1]},
                    "simplifier_shapes": {"pieces": PIECES, "max_pieces": shape_bounds[0], "contexts": SHAPE_CTX, "max_pieces_in_context": shape_bounds[1],
                                          "engine": "plain" if thorough else "sanitized"},
                    "escapes": "every byte 0-255 x every spelling (1-3 digit octal, \\xhh, \\xHH, named, literal, %%) x 9 following contexts, compared with the bytes it denotes"},
